@@ -302,11 +302,14 @@ class Flow:
     def _gamma(self, ds: list, at: int):
         """Two plain assignments merged by one if/else (or an assignment overridden under one `if`): the value is the
         conditional expression of the two.  -> (If statement, def when the test is true, def when it is false)."""
-        if any(d.kind != "assign" or d.value is None or d.stmt is None for d in ds):
+        if sum(1 for d in ds if d.kind == "param") > 1 or any(d.kind not in ("assign", "param") for d in ds) or \
+                any(d.kind == "assign" and (d.value is None or d.stmt is None) for d in ds):
             return None
         a, b = ds
         for first, second in ((a, b), (b, a)):
-            pf, ps = parent(first.stmt), parent(second.stmt)
+            if second.kind == "param":
+                continue   # a parameter can only be the earlier value
+            pf, ps = (parent(first.stmt) if first.kind == "assign" else self.fn.node), parent(second.stmt)
             # both directly in the two arms of the same if
             if isinstance(pf, ast.If) and pf is ps and first.stmt in pf.body and second.stmt in pf.orelse:
                 st, dt, df = pf, first, second
@@ -459,10 +462,18 @@ class Flow:
                     g = flow._gamma(ds, at)
                     if g is not None:
                         test_st, dt, df = g
+
+                        def val(d_):
+                            if d_.kind == "param":
+                                # the caller's value: the name as it was on entry
+                                at_root = [x for x in flow.reaching(d_.var, root) if x.kind != "mutate"]
+                                lab = d_.var if at_root == [d_] and not getattr(flow, "absolute_versions", False) else f"{d_.var}@0"
+                                return ast.Name(id=lab, ctx=ast.Load())
+                            return flow._expand(clone(d_.value), d_.value, d_.node, depth - 1, stop, root)
+
                         return ast.copy_location(ast.IfExp(
                             test=flow._expand(clone(test_st.test), test_st.test, flow.cfg.node_for(test_st), depth - 1, stop, root),
-                            body=flow._expand(clone(dt.value), dt.value, dt.node, depth - 1, stop, root),
-                            orelse=flow._expand(clone(df.value), df.value, df.node, depth - 1, stop, root)), node)
+                            body=val(dt), orelse=val(df)), node)
                 if len(ds) != 1:
                     return leave(node)
                 d = ds[0]
